@@ -112,13 +112,13 @@ def gen_base(rng):
 def well_scaled(ref):
     """The optimizer-space problem must be one scipy's optimizers handle reliably (their tolerances and
     initial trust regions are absolute numbers in that space): Hessian condition <= 1e4, Hessian and
-    constraint-row norms within [1e-2, 1e2]."""
+    constraint-row norms within [1e-2, 1e2], Hessian eigenvalues within [1e-3, 1e3]."""
     free = ref.free_positions()
     sx = np.concatenate([ref._slope(d)[0] for d in ref.dvs])
     sf = ref._slope(ref.obj)[0][0]
     H = sf * ref.Q[np.ix_(free, free)] / np.outer(sx, sx)
     ev = np.linalg.eigvalsh(H)
-    if ev[0] <= 0 or ev[-1] / ev[0] > 1e4 or ev[-1] > 1e2 or ev[0] < 1e-2:
+    if ev[0] <= 0 or ev[-1] / ev[0] > 1e4 or ev[-1] > 1e3 or ev[0] < 1e-3:
         return False
     for c in ref.cons:
         sc = ref._slope(c)[0]
@@ -166,6 +166,16 @@ class ScaledRef:
         J = self.ref.jac(self.z(xs), scaled=True)
         return np.hstack([J[(key, d['key'])] for d in self.ref.dvs])
 
+    def jac_g_without_units(self, key):
+        """what a Jacobian that applies the scalers but forgets the declared-unit factors looks like."""
+        c = [c_ for c_ in self.ref.cons if c_['key'] == key][0]
+        sc, _ = af.scaler_adder(c['sc'], c['size'])
+        blocks = []
+        for d in self.ref.dvs:
+            sd, _ = af.scaler_adder(d['sc'], d['size'])
+            blocks.append(sc[:, None] * self.ref.A[np.ix_(c['rows'], d['pos'])] / sd[None, :])
+        return np.hstack(blocks)
+
 
 class Monitor:
     """Wraps the callbacks scipy calls (on the driver instance) and the minimize() entry point.
@@ -183,7 +193,9 @@ class Monitor:
         self.wrong = 0          # constraint values that match no evaluated point
         self.obj_wrong = 0
         self.grad_wrong = 0
+        self.grad_stale = 0
         self.congrad_wrong = 0
+        self.congrad_nounits = 0
         self.sides = set()      # (con key, k, 'lower'|'upper') presented to the optimizer
         self.last_obj_x = None
         self.captured = None
@@ -219,8 +231,13 @@ class Monitor:
             if drv._exc_info is None:
                 self.acc.count('obs:callback-gradient')
                 gr = self.sr.grad_f(x)
-                if np.shape(r) != gr.shape or np.max(np.abs(np.asarray(r) - gr)) > 1e-8 * (1 + np.max(np.abs(gr))):
-                    self.grad_wrong += 1
+                tol = 1e-8 * (1 + np.max(np.abs(gr)))
+                if np.shape(r) != gr.shape or np.max(np.abs(np.asarray(r) - gr)) > tol:
+                    g2 = None if self.last_obj_x is None else self.sr.grad_f(self.last_obj_x)
+                    if g2 is not None and np.shape(r) == g2.shape and np.max(np.abs(np.asarray(r) - g2)) <= tol:
+                        self.grad_stale += 1
+                    else:
+                        self.grad_wrong += 1
             return r
 
         def congradfunc(x, name, dbl, idx):
@@ -231,7 +248,11 @@ class Monitor:
                 r_ = np.asarray(r, float).ravel()
                 tol = 1e-8 * (1 + np.max(np.abs(row)))
                 if r_.shape != row.shape or min(np.max(np.abs(r_ - row)), np.max(np.abs(r_ + row))) > tol:
-                    self.congrad_wrong += 1
+                    alt = self.sr.jac_g_without_units(name)[int(idx)]
+                    if r_.shape == alt.shape and min(np.max(np.abs(r_ - alt)), np.max(np.abs(r_ + alt))) <= tol:
+                        self.congrad_nounits += 1
+                    else:
+                        self.congrad_wrong += 1
             return r
 
         drv._objfunc = objfunc
@@ -273,8 +294,23 @@ class Monitor:
         for sd in (('lower', 'upper') if side == 'both' else (side,)):
             self.sides.add((name, idx, sd))
 
-    def anomalies(self):
-        return bool(self.stale or self.wrong or self.obj_wrong or self.grad_wrong or self.congrad_wrong)
+    def label(self, style):
+        """Mechanism label from the callback monitors (None = every value handed to scipy was right)."""
+        if self.stale:
+            return '%s:constraint-callback-returns-values-of-previous-point' % style
+        if self.congrad_nounits:
+            return '%s:linear-constraint-gradient-ignores-declared-units' % style
+        if self.wrong:
+            return '%s:constraint-callback-value-mismatch' % style
+        if self.congrad_wrong:
+            return '%s:constraint-gradient-callback-mismatch' % style
+        if self.grad_stale:
+            return '%s:objective-gradient-callback-returns-gradient-of-previous-point' % style
+        if self.grad_wrong:
+            return '%s:objective-gradient-callback-mismatch' % style
+        if self.obj_wrong:
+            return '%s:objective-callback-mismatch' % style
+        return None
 
     # ---- what was handed to scipy.optimize.minimize ------------------------------------------
     def linear_constraint_report(self):
@@ -297,7 +333,9 @@ class Monitor:
                 out[c['key']] = 'jacobian-has-%s-row-for-array-constraint' % ('one' if A.shape[0] == 1 else 'wrong')
                 continue
             if np.max(np.abs(A - J)) > 1e-8 * (1 + np.max(np.abs(J))):
-                out[c['key']] = 'jacobian-mismatch'
+                alt = self.sr.jac_g_without_units(c['key'])
+                out[c['key']] = 'jacobian-ignores-declared-units' if \
+                    np.max(np.abs(A - alt)) <= 1e-8 * (1 + np.max(np.abs(alt))) else 'jacobian-mismatch'
                 continue
             k0 = self.sr.g(zero, c['key'])            # constant term of the affine map x_s -> g_s
             lo, hi = self.sr.lo[c['key']], self.sr.hi[c['key']]
@@ -315,9 +353,10 @@ class Monitor:
         return out
 
 
-def run_control(opt, mon, drv):
+def run_control(opt, mon, drv, absent=np.inf):
     """The same optimizer-space problem posed directly to scipy from the reference formulas, with the
-    same options.  Returns x or None (control failed / raised)."""
+    same options.  Returns x or None (control failed / raised).  `absent` is the number used for an
+    absent bound of a new-style constraint (np.inf, or 1e30 to mimic a finite "infinity")."""
     from scipy.optimize import minimize, Bounds, NonlinearConstraint
     sr = mon.sr
     cap = mon.captured or {}
@@ -326,8 +365,8 @@ def run_control(opt, mon, drv):
     if opt in NEW_STYLE:
         for c in sr.ref.cons:
             key = c['key']
-            lo = np.where(sr.lo[key] <= -af.INF_BOUND, -np.inf, sr.lo[key])
-            hi = np.where(sr.hi[key] >= af.INF_BOUND, np.inf, sr.hi[key])
+            lo = np.where(sr.lo[key] <= -af.INF_BOUND, -absent, sr.lo[key])
+            hi = np.where(sr.hi[key] >= af.INF_BOUND, absent, sr.hi[key])
             cons.append(NonlinearConstraint(lambda x, key=key: sr.g(x, key), lo, hi,
                                             jac=lambda x, key=key: sr.jac_g(x, key)))
     else:
@@ -384,13 +423,8 @@ def classify_element(opt, mon, c, k, side, linrep):
                 what, 'array-bounds' if isinstance(cd.get(side), list) else 'scalar-bounds')
         return 'new-style:element-never-passed-to-optimizer:%s:element-violated' % (
             'not-last-element' if k != c['size'] - 1 else 'last-element')
-    if mon.stale:
-        return '%s:constraint-callback-returns-values-of-previous-point:element-violated' % style
-    if mon.wrong:
-        return '%s:constraint-callback-value-mismatch:element-violated' % style
-    if mon.congrad_wrong or mon.grad_wrong:
-        return '%s:gradient-callback-mismatch:element-violated' % style
-    return None
+    lab = mon.label(style)
+    return None if lab is None else lab + ':element-violated'
 
 
 def _truly_feasible_start(ref, z0, only_linear=True):
@@ -455,15 +489,17 @@ def judge(case, acc):
             if neg:
                 key = 'neg-scaler:%s:raises:%s@%s' % (variant, type(e).__name__, where)
             elif lin_tc:
-                linrep = mon.linear_constraint_report()
-                mech = sorted(set(m for m in linrep.values() if m))
+                linrep = mon.linear_constraint_report() if mon.captured is not None else {
+                    c['key']: ('array-constraint-rejected-before-minimize' if c['size'] > 1 else
+                               'rejected-before-minimize') for c in ref.cons if c['d'].get('linear')}
+                mech = _primary(m for m in linrep.values() if m)
                 if not mech and 'infeasible' in msg and not _truly_feasible_start(ref, ref.x0):
                     # keep_feasible=True is how the driver documents it passes linear constraints; scipy
                     # then (loudly) refuses a start that really violates them
                     acc.skip('trust-constr-linear-constraint-refuses-truly-infeasible-start')
                     return
                 key = 'run_driver-raises:new-style-linear-constraint:%s:%s@%s' % (
-                    '+'.join(mech) or 'correctly-posed', type(e).__name__, where)
+                    mech or 'correctly-posed', type(e).__name__, where)
             else:
                 key = 'run_driver-raises:%s:%s@%s:%s' % (opt, type(e).__name__, where, _stratum(spec))
             acc.viol(key, '%s: %s' % (type(e).__name__, msg[:240]), case, fp=fp)
@@ -495,13 +531,9 @@ def judge(case, acc):
                 '%s:model-state-differs-from-returned-x' % opt
             bad.append((key, 'model is left at z=%s but the optimizer returned (unscaled) %s'
                         % (z_model.tolist(), z.tolist())))
-        if not neg:
-            for n_, nm in ((mon.obj_wrong, 'objective'), (mon.grad_wrong, 'objective-gradient'),
-                           (mon.congrad_wrong, 'constraint-gradient')):
-                if n_:
-                    bad.append(('%s:%s-callback-value-mismatch' % (opt, nm),
-                                '%d %s values handed to scipy differ from the reference at the requested x'
-                                % (n_, nm)))
+        lab = mon.label('new-style' if opt in NEW_STYLE else 'old-style')
+        if lab:
+            acc.count('obs:anomaly:' + lab)
         # ---- guard for trust-constr: only judge what scipy itself claims converged
         judge_feas = True
         judge_opt = True
@@ -597,22 +629,24 @@ def judge(case, acc):
                 what = 'reported z=%s, exact optimum %s (err %.3g > tol %.3g, f gap %.3g)' % (
                     z.tolist(), zs.tolist(), err, tol, fgap)
                 style = 'new-style' if opt in NEW_STYLE else 'old-style'
-                lin_m = sorted(set(m for m in linrep.values() if m))
+                lin_m = _primary(m for m in linrep.values() if m)
                 if neg:
                     bad.append(('neg-scaler:%s:not-the-optimum' % variant, what))
-                elif mon.stale:
-                    bad.append(('%s:constraint-callback-returns-values-of-previous-point:not-the-optimum'
-                                % style, what))
-                elif mon.wrong or mon.grad_wrong or mon.congrad_wrong or mon.obj_wrong:
-                    bad.append(('%s:callback-value-mismatch:not-the-optimum' % style, what))
+                elif lab:
+                    bad.append((lab + ':not-the-optimum', what))
                 elif lin_m:
-                    bad.append(('new-style-linear-constraint:%s:not-the-optimum' % '+'.join(lin_m), what))
+                    bad.append(('new-style-linear-constraint:%s:not-the-optimum' % lin_m, what))
                 else:
                     xc = run_control(opt, mon, drv)
                     acc.count('obs:control-runs')
                     if xc is not None and np.max(np.abs(mon.sr.z(xc) - zs)) <= tol:
-                        bad.append(('%s:not-the-optimum-while-control-run-converges:%s' % (opt, _stratum(spec)),
-                                    what))
+                        key = '%s:not-the-optimum-while-control-run-converges:%s' % (opt, _stratum(spec))
+                        if opt in NEW_STYLE and _finite_infinity_passed(mon):
+                            # second control: identical, but absent bounds given as the finite number 1e30
+                            x2 = run_control(opt, mon, drv, absent=af.INF_BOUND)
+                            if x2 is None or np.max(np.abs(mon.sr.z(x2) - zs)) > tol:
+                                key = 'new-style:absent-bound-passed-as-finite-1e30:not-the-optimum'
+                        bad.append((key, what))
                     else:
                         blamed_scipy = True
                         acc.count('guard:control-run-misses-optimum-too:' + opt)
@@ -640,6 +674,29 @@ def judge(case, acc):
                 p.cleanup()
             except Exception:
                 pass
+
+
+_MECH_ORDER = ['array-constraint-rejected-before-minimize', 'rejected-before-minimize', 'not-passed-to-optimizer',
+               'jacobian-has-one-row-for-array-constraint', 'jacobian-has-wrong-row-for-array-constraint',
+               'jacobian-ignores-declared-units', 'jacobian-mismatch',
+               'constant-term-of-affine-constraint-ignored']
+
+
+def _primary(mechs):
+    mechs = set(mechs)
+    for m in _MECH_ORDER:
+        if m in mechs:
+            return m
+    return sorted(mechs)[0] if mechs else None
+
+
+def _finite_infinity_passed(mon):
+    for c in (mon.captured or {}).get('constraints') or []:
+        for v in (getattr(c, 'lb', None), getattr(c, 'ub', None)):
+            if v is not None and np.any((np.abs(np.asarray(v, float)) >= af.INF_BOUND) &
+                                        np.isfinite(np.asarray(v, float))):
+                return True
+    return False
 
 
 def _bounds_ok(mon, ref):
@@ -701,8 +758,8 @@ def _stratum(spec):
 
 # ----------------------------------------------------------------------------------------------
 def shards(tier, seed):
-    nsh = 32 if tier == 'quick' else 48
-    nprob = 3 if tier == 'quick' else 40
+    nsh = 16 if tier == 'quick' else 32
+    nprob = 6 if tier == 'quick' else 60
     return [{'seed': seed * 100003 + 7919 * k + 11, 'n': nprob, 'tier': tier} for k in range(nsh)]
 
 
